@@ -153,9 +153,38 @@ CBC_DEC = FnC(
 '''})
 
 
+def trait_sel(enc):
+    T = 'Encrypt' if enc else 'Decrypt'
+    v = 'enc' if enc else 'dec'
+    members = '''
+    spec fn min_len(&self) -> nat;
+    // `out` is the ciphertext-stealing image of `m` under this object (defined per variant from spec/cts.rs)
+    spec fn %(v)s_ok(&self, m: Seq<u8>, out: Seq<u8>) -> bool;
+''' % {'v': v}
+    PG = ('C05', 'C13', 'C01', 'C12')
+    return Sel('trait ' + T, members=members, fns={
+        '%scrypt_inout' % v[:2]: FnC(ret='r', props=PG, requires=['buf.wf()'], ensures=[
+            ('len', PG, 'buf.out_fut().len() == buf.out_cur().len()'),
+            ('reject_short', ('C13', 'C05'), 'buf.out_cur().len() < self.min_len() ==> r is Err && buf.out_fut() == buf.out_cur()'),
+            ('accept', ('C05', 'C13', 'C01'), 'buf.out_cur().len() >= self.min_len() ==> r is Ok && self.%s_ok(buf.in_val(), buf.out_fut())' % v)]),
+        '%scrypt' % v[:2]: FnC(ret='r', props=PG, ensures=[
+            ('len', PG, 'final(buf)@.len() == old(buf)@.len()'),
+            ('reject_short', ('C13', 'C05'), 'old(buf)@.len() < self.min_len() ==> r is Err && final(buf)@ == old(buf)@'),
+            ('accept', ('C05', 'C13', 'C01', 'C12'), 'old(buf)@.len() >= self.min_len() ==> r is Ok && self.%s_ok(old(buf)@, final(buf)@)' % v)]),
+        '%scrypt_b2b' % v[:2]: FnC(ret='r', external_body=True, props=PG, kani=('cts_*',), ensures=[
+            ('len', PG, 'final(out_buf)@.len() == old(out_buf)@.len()'),
+            ('reject_unequal', ('C13',), 'in_buf@.len() != old(out_buf)@.len() ==> r is Err && final(out_buf)@ == old(out_buf)@'),
+            ('reject_short', ('C13', 'C05'), 'in_buf@.len() == old(out_buf)@.len() && in_buf@.len() < self.min_len() ==> r is Err && final(out_buf)@ == old(out_buf)@'),
+            ('accept', ('C05', 'C13', 'C01', 'C12'), 'in_buf@.len() == old(out_buf)@.len() && in_buf@.len() >= self.min_len() ==> r is Ok && self.%s_ok(in_buf@, final(out_buf)@)' % v)],
+            note='`.map_err(|NotEqualError| Error).and_then(|buf| ..)`: pattern-parameter closures and Result::and_then are outside this Verus (probed); contract checked by the cts_* harnesses (bounded)'),
+    })
+
+
 def lib_mod():
     return Mod('cts_lib', 'cts/src/lib.rs', items=[
         Sel('struct Error'),
+        trait_sel(True),
+        trait_sel(False),
         Sel('fn xor', fns={'xor': K.xor_fn(props=('C05',))}),
         Sel('fn ecb_enc', fns={'ecb_enc': ecb_fn(True)}),
         Sel('fn ecb_dec', fns={'ecb_dec': ecb_fn(False)}),
@@ -189,5 +218,79 @@ def lib_mod():
     ])
 
 
+PG = ('C05', 'C13', 'C01', 'C12')
+
+
+def enc_ok_expr(cbc, variant, efn, iv, m, out, b):
+    if cbc:
+        return 'forall |ps: Seq<Blk>, t: Seq<u8>| #[trigger] is_chunking(%s, %s, ps, t) ==> %s == cbc_cs_enc(%d, %s, %s, ps, t)' % (m, b, out, variant, efn, iv)
+    return 'forall |ps: Seq<Blk>, t: Seq<u8>| #[trigger] is_chunking(%s, %s, ps, t) ==> %s == ecb_cs_enc(%d, %s, %s, ps, t)' % (m, b, out, variant, efn, b)
+
+
+CLOSURE_PRE = '''
+        proof { BS::block_size_bounds(); }
+        broadcast use Array::axiom_len;
+        let ghost buf0 = self.buf;
+        let ghost bl = BS::USIZE as nat;
+        let ghost ll = buf0.out_cur().len();
+'''
+
+
+def variant_mod(fname, obj, cbc, variant, enc_call=None, dec_call=None):
+    modname = 'cts_' + fname
+    b = 'C::BlockSize::USIZE as nat'
+    iv_c = 'self.iv@' if cbc else None
+    enc_members = '''
+    open spec fn min_len(&self) -> nat { %s }
+    open spec fn enc_ok(&self, m: Seq<u8>, out: Seq<u8>) -> bool {
+        out.len() == m.len() && (%s)
+    }
+''' % (b, enc_ok_expr(cbc, variant, 'self.cipher.enc_fn()', 'self.iv@', 'm', 'out', b))
+    dec_members = '''
+    open spec fn min_len(&self) -> nat { %s }
+    open spec fn dec_ok(&self, m: Seq<u8>, out: Seq<u8>) -> bool { out.len() == m.len() }
+''' % b
+    clo_enc_members = '''
+    open spec fn pre_c(&self) -> bool { self.buf.wf() && self.buf.out_cur().len() >= BS::USIZE }
+    #[verifier::prophetic]
+    open spec fn post_c(&self, enc: spec_fn(Blk) -> Blk) -> bool {
+        {
+            &&& self.buf.out_fut().len() == self.buf.out_cur().len()
+            &&& (%s)
+        }
+    }
+''' % enc_ok_expr(cbc, variant, 'enc', 'self.iv@', 'self.buf.in_val()', 'self.buf.out_fut()', 'BS::USIZE as nat')
+    clo_dec_members = '''
+    open spec fn pre_c(&self) -> bool { self.buf.wf() && self.buf.out_cur().len() >= BS::USIZE }
+    #[verifier::prophetic]
+    open spec fn post_c(&self, dec: spec_fn(Blk) -> Blk) -> bool {
+        self.buf.out_fut().len() == self.buf.out_cur().len()
+    }
+'''
+    items = [
+        Sel('struct ' + obj),
+        Sel('impl InnerUser for ' + obj),
+        Sel('impl IvSizeUser for ' + obj),
+    ]
+    if cbc:
+        items.append(Sel('impl InnerIvInit for ' + obj, fns={'inner_iv_init': FnC(ret='r', props=('C05', 'C14'), ensures=[
+            ('iv', ('C05', 'C14'), 'r.iv@ == iv@ && r.cipher == cipher')])}))
+    else:
+        items.append(Sel('impl InnerInit for ' + obj, fns={'inner_init': FnC(ret='r', props=('C05', 'C14'), ensures=[
+            ('cipher', ('C05', 'C14'), 'r.cipher == cipher')])}))
+    items += [
+        Sel('impl Encrypt for ' + obj, members=enc_members, fns={'encrypt_inout': FnC(props=PG, inherits=True,
+            note='length gate; hands the buffer to the closure')}),
+        Sel('impl Decrypt for ' + obj, members=dec_members, fns={'decrypt_inout': FnC(props=PG, inherits=True,
+            note='length gate; hands the buffer to the closure')}),
+        Sel('struct Closure'),
+        Sel('impl BlockSizeUser for Closure'),
+        Sel('impl BlockCipherEncClosure for Closure', members=clo_enc_members, fns={'call': enc_call or FnC(props=PG, inherits=True)}),
+        Sel('impl BlockCipherDecClosure for Closure', members=clo_dec_members, fns={'call': dec_call or FnC(props=PG, inherits=True)}),
+    ]
+    uses = 'use super as cipher; use super::cts_lib::{Encrypt, Decrypt, Error, cbc_dec, cbc_enc, ecb_dec, ecb_enc, xor};'
+    return Mod(modname, 'cts/src/%s.rs' % fname, uses=uses, items=items)
+
+
 def unit():
-    return Unit('cts', prelude=K.PRELUDE_BLOCK, spec=['steps.rs', 'cts.rs'], mods=[lib_mod()])
+    return Unit('cts', prelude=K.PRELUDE_BLOCK, spec=['steps.rs', 'cts.rs'], mods=[lib_mod(), variant_mod('cbc_cs3', 'CbcCs3', True, 3)])
